@@ -270,3 +270,126 @@ fn generated_file_is_fresh() {
         Err(e) => eprintln!("skipped: python3 unavailable: {}", e),
     }
 }
+
+#[test]
+fn build_spec_with_every_section() {
+    let dir = std::env::temp_dir().join(format!("vreplay-test-build-{}", std::process::id()));
+    std::fs::create_dir_all(&dir).unwrap();
+    let out = dir.join("full.wasm");
+    let spec = here("tests/spec/full.json");
+    let st = bin()
+        .args(["build", spec.to_str().unwrap(), "-o", out.to_str().unwrap()])
+        .output()
+        .unwrap();
+    assert!(st.status.success(), "{}", String::from_utf8_lossy(&st.stderr));
+    let (r, _) = run_json(&["roundtrip", out.to_str().unwrap()]);
+    let i = &r["input"];
+    assert_eq!(i["valid"], true, "{}", i["validation_error"]);
+    let d = &i["dump"];
+    assert_eq!(
+        d["sections"],
+        serde_json::json!([
+            "version:1:Module", "custom:hello", "type", "import", "function", "table", "memory", "global",
+            "export", "start", "element", "datacount", "custom:mid", "code", "data", "custom:name",
+            "custom:producers", "custom:tail", "custom:default-place"
+        ])
+    );
+    assert_eq!(d["types"].as_array().unwrap().len(), 3);
+    assert_eq!(d["imports"].as_array().unwrap().len(), 5);
+    assert_eq!(d["functions"], serde_json::json!([0, 1, 2]));
+    assert_eq!(d["start"], 2);
+    assert_eq!(d["data_count"], 2);
+    // MVP vs explicit-index encodings of active element segments
+    assert_eq!(d["elements"][0]["table"]["explicit"], false);
+    assert_eq!(d["elements"][1]["table"], serde_json::json!({"explicit": true, "index": 1}));
+    assert_eq!(d["elements"][2]["items"].as_array().unwrap().len(), 3);
+    assert_eq!(d["elements"][3]["mode"], "declared");
+    assert_eq!(d["code"][0]["locals"], serde_json::json!(["1 x I64", "2 x I32"]));
+    assert_eq!(d["code"][0]["ops"][1], "I32Const { value: -5 }");
+    assert_eq!(d["data"][1]["bytes"], "00ff");
+    assert_eq!(d["names"]["local"]["1"]["1"], "l");
+    assert_eq!(d["names"]["global"]["2"], "g7");
+    assert_eq!(r["status"], "ok");
+
+    // an empty spec is just the 8-byte header; bad specs are usage errors
+    let e = dir.join("empty.json");
+    std::fs::write(&e, "{}").unwrap();
+    let st = bin().args(["build", e.to_str().unwrap(), "-o", out.to_str().unwrap()]).output().unwrap();
+    assert!(st.status.success());
+    assert_eq!(std::fs::read(&out).unwrap(), b"\0asm\x01\0\0\0");
+    std::fs::write(&e, r#"{"funcs":[{"type":0,"ops":[{"instruction":"LocalGet","fields":{}}]}]}"#).unwrap();
+    let st = bin().args(["build", e.to_str().unwrap(), "-o", out.to_str().unwrap()]).output().unwrap();
+    assert_eq!(st.status.code(), Some(2));
+    let _ = std::fs::remove_dir_all(&dir);
+}
+
+fn script(name: &str) -> Value {
+    let p = here("tests/script").join(name);
+    let (r, code) = run_json(&["script", p.to_str().unwrap()]);
+    assert_eq!(code, 0);
+    r
+}
+
+#[test]
+fn script_emit_variants() {
+    let r = script("emit.json");
+    assert_eq!(r["status"], "ok");
+    assert_eq!(r["input"]["valid"], true);
+    assert_eq!(r["emits"].as_array().unwrap().len(), 1);
+    assert_eq!(r["emits"][0]["valid"], true);
+    assert!(r["emits"][0]["hex"].as_str().unwrap().starts_with("0061736d"));
+    assert_eq!(r["on_parse"], Value::Null);
+
+    let r = script("gc_emit.json");
+    assert_eq!(r["status"], "ok");
+    assert_eq!(r["steps_done"].as_array().unwrap().len(), 2);
+    assert_eq!(r["emits"][0]["valid"], true);
+    let secs = r["emits"][0]["dump"]["sections"].as_array().unwrap();
+    assert!(!secs.contains(&serde_json::json!("custom:producers")));
+
+    let r = script("emit_emit.json");
+    assert_eq!(r["status"], "ok");
+    assert_eq!(r["emits"].as_array().unwrap().len(), 2);
+    assert!(r["emits_identical_to_first"][0].is_boolean());
+}
+
+#[test]
+fn script_on_parse_and_reparse() {
+    let r = script("on_parse.json");
+    assert_eq!(r["status"], "ok");
+    let o = &r["on_parse"];
+    assert_eq!(o["calls"], 2); // parse + reparse
+    assert_eq!(o["later_calls"].as_array().unwrap().len(), 1);
+    assert_eq!(o["func"].as_array().unwrap().len(), 4);
+    assert_eq!(o["func"][0]["imported"], true);
+    assert_eq!(o["func"][1]["name"], "f");
+    assert_eq!(o["func"][3]["ty"]["results"], "[I64]");
+    assert_eq!(o["memory"][0]["maximum"], 2);
+    assert_eq!(o["memory"][0]["imported"], true);
+    assert_eq!(o["table"].as_array().unwrap().len(), 3);
+    assert_eq!(o["global"].as_array().unwrap().len(), 6);
+    assert_eq!(o["global"][3]["mutable"], true);
+    assert_eq!(o["element"].as_array().unwrap().len(), 4);
+    assert_eq!(o["data"][0]["value"], "68656c6c6f");
+    assert_eq!(o["type"].as_array().unwrap().len(), 3);
+    assert_eq!(r["emits"].as_array().unwrap().len(), 2);
+}
+
+#[test]
+fn script_preserve_code_transform() {
+    let r = script("code_transform.json");
+    assert_eq!(r["status"], "ok");
+    let ct = r["code_transform"].as_array().unwrap();
+    assert!(!ct.is_empty());
+    assert_eq!(ct[0]["emit"], 0);
+    assert!(ct[0]["code_section_start"].as_u64().unwrap() > 8);
+    assert_eq!(ct[0]["function_ranges"].as_array().unwrap().len(), 3);
+    assert!(!ct[0]["instruction_map"].as_array().unwrap().is_empty());
+    let ei = r["emit_indices"].as_array().unwrap();
+    assert_eq!(ei[0]["func"].as_array().unwrap().len(), 4);
+    assert_eq!(ei[0]["func"][0], serde_json::json!({"arena_pos": 0, "name": "imp", "index": 0}));
+    // gc removed the unused imported globals: no index at emit time
+    assert_eq!(ei[0]["global"][0]["index"], Value::Null);
+    let secs = r["emits"][0]["dump"]["sections"].as_array().unwrap();
+    assert!(secs.contains(&serde_json::json!("custom:vreplay-probe")));
+}
